@@ -48,6 +48,9 @@ def plan(tier, seed):
             spec["fd"] = False
             spec["degenerate"] = False
             spec["kpm_options"] = str(rng.choice(["default", "atol", "atol_aux"]))
+            while sum(spec["sizes"]) > spec["N"] - 3:  # keep an implicit subspace (and room for 2 auxiliary vectors)
+                spec["sizes"][int(np.argmax(spec["sizes"]))] -= 1
+            spec["sizes"] = [x for x in spec["sizes"] if x > 0] or [1]
         spec["variant"] = str(rng.choice(["plain", "plain", "phase_vecs", "f4_pert", "dense_input", "options"]))
         spec["max_order"] = 3 if tier == "quick" else int(rng.choice([3, 4]))
         if spec["solver"] == "kpm":
